@@ -88,6 +88,9 @@ def impl_case(c):
     def merge():
         if mode == 'file':
             return mido.MidiFile(tracks=objs).merged_track
+        if len(objs) % 3 == 2:
+            # any iterable of tracks (a generator here), each track any iterable of messages (a tuple here)
+            return mido.merge_tracks((tuple(t) for t in objs), skip_checks=(mode == 'skip'))
         return mido.merge_tracks(objs, skip_checks=(mode == 'skip'))
     try:
         res = merge()
